@@ -34,12 +34,12 @@ RULE = ("per item and variant: FillRandom with N fixed seeds in a journaled chil
 
 def run(ctx):
     codec.simple_check(ctx, "c18", RULE, [("types", "types", 150), ("fills", "fills", 20000), ("result fills", "result_fills", 500)], 120, 1500,
-                       count_keys=("fills", "result_fills"), fill_death_is_violation=True, random_quick=3, random_thorough=30)
+                       count_keys=("fills", "result_fills"), fill_death_is_violation=True, random_quick=3, random_thorough=30, oom_is_violation=True)
     # recursive shapes with a budget of random draws per value: a filling that does not terminate is observed as such
     path = os.path.join(ctx.work, "recursive_shapes.tl")
     open(path, "w").write(RECURSIVE_SHAPES)
     p = codec.build_pkg(ctx, "recursive_shapes", [path], "tl2all", must=True)
-    t, _ = codec.run_mode(ctx, p, "c18", env={"VERIF_VALUES": 1500 if ctx.tier == "thorough" else 300, "VERIF_DRAW_CAP": 400000000}, fill_death_is_violation=True, mem_gb=8)
+    t, _ = codec.run_mode(ctx, p, "c18", env={"VERIF_VALUES": 1500 if ctx.tier == "thorough" else 300, "VERIF_DRAW_CAP": 400000000}, fill_death_is_violation=True, mem_gb=8, oom_is_violation=True)
     ctx.cov["rule"] += (" Plus a fixed schema of recursive shapes (recursion through dictionary, int-key dictionary, vector, vector of Maybe, mutual recursion, unions, "
                         "masked self reference) filled from 300 (thorough 1500) seeds per item with a counting random source: FillRandom may nest at most 700 call frames (a few dozen on a tree "
                         "that limits depth) and one value may draw at most 4*10^8 random numbers; the largest nesting and number of draws seen are reported.")
@@ -48,4 +48,4 @@ def run(ctx):
     fpath = os.path.join(ctx.work, "fixed_shapes.tl")
     open(fpath, "w").write(schemagen.fixed_shapes().text())
     fp = codec.build_pkg(ctx, "fixed_shapes", [fpath], "tl2all", must=True)
-    codec.run_mode(ctx, fp, "c18", env={"VERIF_VALUES": 300 if ctx.tier == "thorough" else 60}, fill_death_is_violation=True)
+    codec.run_mode(ctx, fp, "c18", env={"VERIF_VALUES": 300 if ctx.tier == "thorough" else 60}, fill_death_is_violation=True, oom_is_violation=True)
